@@ -48,7 +48,9 @@ func (st *CompatibleSet[T]) add(ht Hint, v T) error {
 		return errors.WithMessage(err, "add to CompatibleSet")
 	}
 
-	st.cacheSet(ht.String(), [2]interface{}{ht, v})
+	// NOTE cache what Find() answers; the kept one of same type and major
+	// version, v may be ignored by the higher version.
+	st.cacheSet(ht.String(), [2]interface{}{ht, st.set[ht.Type()][ht.Version().Major()]})
 
 	switch eht, found := st.typeheadhints[ht.Type()]; {
 	case !found:
